@@ -1,6 +1,6 @@
 #!/bin/bash
 # usage: seed_run.sh <patch> <tier> <prop> [<prop>...]  : apply a seeded change to /repo, run checks, undo
-P=$1; T=$2; shift 2
+P=$(realpath "$1"); T=$2; shift 2
 git -C /repo apply "$P" || { echo "patch does not apply to /repo"; exit 2; }
 for c in "$@"; do
   out=$(/verif/bin/check $c --tier $T 2>&1 | tail -4)
